@@ -90,6 +90,9 @@ def each(s):
     return [keys(c) for c in s]
 
 
+MAX_RESTARTS = 12
+
+
 def _run_shard(args):
     mode, binp, cases, wd, idx, timeout = args
     inp = os.path.join(wd, "in-%d.json" % idx)
@@ -134,6 +137,10 @@ def _run_shard(args):
         if restarts > len(cases) + 5:
             raise Infra("harness keeps dying")
         frm = max(last, frm) + 1
+        if restarts >= MAX_RESTARTS and frm < len(cases):
+            # a tree on which case after case hangs or dies: enough has been seen, the rest of the shard is not run
+            died.append({"ev": "skipped", "c": cases[frm]["id"], "from": frm, "n": len(cases) - frm})
+            break
     evs = []
     if os.path.exists(outp):
         with open(outp, "rb") as f:
@@ -163,6 +170,10 @@ def run_harness(mode, cases, wd, nproc=None, timeout=900):
         for ev in evs:
             c = ev.get("c")
             if c is None:
+                continue
+            if ev.get("ev") == "skipped":
+                # the shard was abandoned after too many hangs / deaths: cases without events are expected
+                bycase.setdefault("_skipped", []).append(ev)
                 continue
             bycase.setdefault(c, []).append(ev)
     return bycase
